@@ -1197,6 +1197,198 @@ theorem agg_id (W : ι → ι → ℝ) (a b : ι) : agg W (fun x => x) a b = W a
 
 end aggcompose
 
+-- ===== FOURTH BATCH: counting lemma instances (`lemma_flat_count`, `lemma_image_count`, `lemma_tsum_plus_transpose`) =====
+-- Encoding: the flat (row-major) position `i` of an `n × n` array denotes the cell `(frow(i,n), fcol(i,n))`; the SMT enumeration
+-- `e ↦ (frow(ix[e],n), fcol(ix[e],n))`, `0 ≤ e < k`, is `cell : Fin k → ι × ι` (the range facts `0 ≤ frow, fcol < n` are typing);
+-- "without repetition" is `Function.Injective cell`; "every such cell is enumerated" is `hcov`.  `Fintype.card ι` is the SMT `n`
+-- (so `n ≥ 0` is built in: see the remark in README.md).
+
+section gencount
+open BigOperators Finset
+variable {ι : Type} [Fintype ι] [DecidableEq ι]
+
+/-- `lemma_flat_count(ix, n, 'offdiag')`, ℕ form (truncated subtraction; `n ≤ n * n` always) -/
+theorem card_offdiag_enum (k : ℕ) (cell : Fin k → ι × ι) (hinj : Function.Injective cell)
+    (hoff : ∀ e, (cell e).1 ≠ (cell e).2) (hcov : ∀ x y, x ≠ y → ∃ e, cell e = (x, y)) :
+    k = Fintype.card ι * Fintype.card ι - Fintype.card ι := by
+  have himg : Finset.image cell univ = (univ : Finset ι).offDiag := by
+    ext ⟨x, y⟩
+    simp only [mem_image, mem_univ, true_and, mem_offDiag]
+    constructor
+    · rintro ⟨e, he⟩
+      have h := hoff e
+      rw [he] at h
+      exact h
+    · intro h
+      exact hcov x y h
+  have hc := Finset.card_image_of_injective univ hinj
+  rw [himg, Finset.offDiag_card] at hc
+  simpa using hc.symm
+
+/-- `lemma_flat_count(ix, n, 'offdiag')`, integer form used by the SMT side: `kf == n*n - n` -/
+theorem card_offdiag_enum_int (k : ℕ) (cell : Fin k → ι × ι) (hinj : Function.Injective cell)
+    (hoff : ∀ e, (cell e).1 ≠ (cell e).2) (hcov : ∀ x y, x ≠ y → ∃ e, cell e = (x, y)) :
+    (k : ℤ) = (Fintype.card ι : ℤ) * (Fintype.card ι : ℤ) - (Fintype.card ι : ℤ) := by
+  have h := card_offdiag_enum k cell hinj hoff hcov
+  have hle : Fintype.card ι ≤ Fintype.card ι * Fintype.card ι := Nat.le_mul_self _
+  rw [h, Nat.cast_sub hle, Nat.cast_mul]
+
+/-- `lemma_flat_count(ix, n, 'upper')`, subtraction-free ℕ form -/
+theorem card_upper_enum_nat (n k : ℕ) (cell : Fin k → Fin n × Fin n) (hinj : Function.Injective cell)
+    (hup : ∀ e, (cell e).1 < (cell e).2) (hcov : ∀ x y : Fin n, x < y → ∃ e, cell e = (x, y)) :
+    2 * k + n = n * n := by
+  set U : Finset (Fin n × Fin n) := univ.filter (fun p => p.1 < p.2) with hUdef
+  set L : Finset (Fin n × Fin n) := univ.filter (fun p => p.2 < p.1) with hLdef
+  have himg : Finset.image cell univ = U := by
+    ext ⟨x, y⟩
+    simp only [hUdef, mem_image, mem_univ, true_and, mem_filter]
+    constructor
+    · rintro ⟨e, he⟩
+      have h := hup e
+      rw [he] at h
+      exact h
+    · intro h
+      exact hcov x y h
+  have hU : #U = k := by
+    rw [← himg, Finset.card_image_of_injective univ hinj]
+    simp
+  have hL : #L = #U := by
+    apply Finset.card_equiv (Equiv.prodComm _ _)
+    intro p
+    simp [hUdef, hLdef]
+  have hoff : (univ : Finset (Fin n)).offDiag = U ∪ L := by
+    ext ⟨x, y⟩
+    simp only [hUdef, hLdef, mem_offDiag, mem_univ, true_and, mem_union, mem_filter]
+    exact lt_or_lt_iff_ne.symm
+  have hdisj : Disjoint U L := by
+    rw [Finset.disjoint_left]
+    intro p hp hq
+    simp only [hUdef, hLdef, mem_filter, mem_univ, true_and] at hp hq
+    exact lt_asymm hp hq
+  have hc : #((univ : Finset (Fin n)).offDiag) = n * n - n := by
+    simp [Finset.offDiag_card]
+  rw [hoff, Finset.card_union_of_disjoint hdisj, hL, hU] at hc
+  have hle : n ≤ n * n := Nat.le_mul_self n
+  generalize n * n = m at hc hle ⊢
+  omega
+
+/-- `lemma_flat_count(ix, n, 'upper')`, integer form used by the SMT side: `2 * kf == n*n - n` -/
+theorem card_upper_enum (n k : ℕ) (cell : Fin k → Fin n × Fin n) (hinj : Function.Injective cell)
+    (hup : ∀ e, (cell e).1 < (cell e).2) (hcov : ∀ x y : Fin n, x < y → ∃ e, cell e = (x, y)) :
+    2 * (k : ℤ) = (n : ℤ) * (n : ℤ) - (n : ℤ) := by
+  have h := card_upper_enum_nat n k cell hinj hup hcov
+  have h' : ((2 * k + n : ℕ) : ℤ) = ((n * n : ℕ) : ℤ) := by rw [h]
+  push_cast at h'
+  linarith
+
+/-- `lemma_image_count(M, r, c, k, n)`: `k` pairwise distinct cells hold 1, every other cell holds 0 ⟹ the matrix sums to `k` -/
+theorem tot_indicator_of_injective_cells (k : ℕ) (cell : Fin k → ι × ι) (hinj : Function.Injective cell)
+    (M : ι → ι → ℝ) (hM : ∀ x y, M x y = if ∃ t, cell t = (x, y) then 1 else 0) : tot M = (k : ℝ) := by
+  unfold tot
+  rw [← Finset.sum_product']
+  have hcell : ∀ p ∈ (univ : Finset ι) ×ˢ (univ : Finset ι),
+      M p.1 p.2 = if p ∈ Finset.image cell univ then (1 : ℝ) else 0 := by
+    rintro ⟨x, y⟩ _
+    rw [hM]
+    simp
+  rw [Finset.sum_congr rfl hcell, Finset.sum_boole]
+  have hf : ((univ : Finset ι) ×ˢ (univ : Finset ι)).filter (fun p => p ∈ Finset.image cell univ) = Finset.image cell univ := by
+    ext p
+    simp
+  rw [hf, Finset.card_image_of_injective univ hinj]
+  simp
+
+/-- the name used in the docstring of `_sb_lemma_image_count` (SMT `tsum` is `tot`) -/
+theorem tsum_indicator_of_injective_cells (k : ℕ) (cell : Fin k → ι × ι) (hinj : Function.Injective cell)
+    (M : ι → ι → ℝ) (hM : ∀ x y, M x y = if ∃ t, cell t = (x, y) then 1 else 0) : tot M = (k : ℝ) :=
+  tot_indicator_of_injective_cells k cell hinj M hM
+
+/-- `lemma_tsum_plus_transpose(A, S, n)` -/
+theorem tot_add_transpose (A S : ι → ι → ℝ) (h : ∀ x y, S x y = A x y + A y x) : tot S = 2 * tot A := by
+  unfold tot
+  simp only [h, Finset.sum_add_distrib]
+  rw [Finset.sum_comm (f := fun x y => A y x)]
+  ring
+
+/-- `lemma_image_count(M, r, c, k, n)`, witness form (index rows from a 2-D `np.where`), stated in the SMT shape: the index rows
+`r c` are integer-indexed (only `0 ≤ t < k` is looked at), `w` is the where-result's integer-valued index function,
+`hit_w(x,y) := 0 ≤ w(x,y) < k ∧ r[w(x,y)] = x ∧ c[w(x,y)] = y`, and `hw` is the extra hypothesis `∀ t < k, hit_w(r[t], c[t])`.
+Under `hw`, `hit_w(x,y) ↔ ∃ t < k, r[t] = x ∧ c[t] = y`, so this is a corollary of `tot_indicator_of_injective_cells`. -/
+theorem tot_indicator_of_injective_cells_witness (k : ℕ) (r c : ℤ → ι) (w : ι → ι → ℤ)
+    (hdist : ∀ t u : ℤ, 0 ≤ t → t < u → u < k → r t ≠ r u ∨ c t ≠ c u)
+    (hw : ∀ t : ℤ, 0 ≤ t → t < k → 0 ≤ w (r t) (c t) ∧ w (r t) (c t) < k ∧ r (w (r t) (c t)) = r t ∧ c (w (r t) (c t)) = c t)
+    (M : ι → ι → ℝ)
+    (hM : ∀ x y, M x y = if 0 ≤ w x y ∧ w x y < k ∧ r (w x y) = x ∧ c (w x y) = y then 1 else 0) : tot M = (k : ℝ) := by
+  let cell : Fin k → ι × ι := fun t => (r (t.val : ℤ), c (t.val : ℤ))
+  have hcell : ∀ t : Fin k, cell t = (r (t.val : ℤ), c (t.val : ℤ)) := fun _ => rfl
+  have hne : ∀ t u : Fin k, t.val < u.val → cell t ≠ cell u := by
+    intro t u htu he
+    rw [hcell, hcell, Prod.mk.injEq] at he
+    have hu : ((u.val : ℕ) : ℤ) < k := by exact_mod_cast u.isLt
+    rcases hdist t.val u.val (by positivity) (by exact_mod_cast htu) hu with h | h
+    · exact h he.1
+    · exact h he.2
+  have hinj : Function.Injective cell := by
+    intro t u he
+    rcases lt_trichotomy t.val u.val with h | h | h
+    · exact absurd he (hne t u h)
+    · exact Fin.ext h
+    · exact absurd he.symm (hne u t h)
+  apply tot_indicator_of_injective_cells k cell hinj M
+  intro x y
+  rw [hM x y]
+  have hiff : (0 ≤ w x y ∧ w x y < k ∧ r (w x y) = x ∧ c (w x y) = y) ↔ ∃ t, cell t = (x, y) := by
+    constructor
+    · rintro ⟨h0, hk, hr, hc⟩
+      obtain ⟨m, hm⟩ := Int.eq_ofNat_of_zero_le h0
+      have hmk : m < k := by rw [hm] at hk; exact_mod_cast hk
+      refine ⟨⟨m, hmk⟩, ?_⟩
+      rw [hcell]
+      simp only [← hm, hr, hc]
+    · rintro ⟨t, ht⟩
+      rw [hcell, Prod.mk.injEq] at ht
+      have ht0 : (0 : ℤ) ≤ (t.val : ℤ) := by positivity
+      have htk : ((t.val : ℕ) : ℤ) < k := by exact_mod_cast t.isLt
+      have h := hw t.val ht0 htk
+      rw [ht.1, ht.2] at h
+      exact h
+  by_cases h : 0 ≤ w x y ∧ w x y < k ∧ r (w x y) = x ∧ c (w x y) = y
+  · rw [if_pos h, if_pos (hiff.mp h)]
+  · rw [if_neg h, if_neg (fun h' => h (hiff.mpr h'))]
+
+/-- `lemma_tsum_add(A, B, S, n)` -/
+theorem tot_add (A B S : ι → ι → ℝ) (h : ∀ x y, S x y = A x y + B x y) : tot S = tot A + tot B := by
+  unfold tot
+  simp only [h, Finset.sum_add_distrib]
+
+/-- `lemma_tsum_int(M, n)`: a matrix of integers has an integer sum (z3 `IsInt(t)` is `∃ z : ℤ, t = z`) -/
+theorem tot_int (M : ι → ι → ℝ) (h : ∀ x y, ∃ z : ℤ, M x y = (z : ℝ)) : ∃ z : ℤ, tot M = (z : ℝ) := by
+  choose Z hZ using h
+  refine ⟨∑ x, ∑ y, Z x y, ?_⟩
+  unfold tot
+  push_cast
+  simp only [hZ]
+
+/-- `lemma_full_offdiag(M, n)`: 1 off the diagonal, 0 on it ⟹ the sum is `n*n - n` (`n = Fintype.card ι`; over ℝ, equal to the SMT
+`ToReal(n*n - n)` because the integer-to-real cast is a ring homomorphism) -/
+theorem tot_offdiag_ones (M : ι → ι → ℝ) (h : ∀ x y, M x y = if x ≠ y then 1 else 0) :
+    tot M = (Fintype.card ι : ℝ) * (Fintype.card ι : ℝ) - (Fintype.card ι : ℝ) := by
+  unfold tot
+  have hrow : ∀ x, ∑ y, M x y = (Fintype.card ι : ℝ) - 1 := by
+    intro x
+    have he : ∀ y, M x y = 1 - (if x = y then (1 : ℝ) else 0) := by
+      intro y
+      rw [h]
+      by_cases hxy : x = y
+      · simp [hxy]
+      · simp [hxy]
+    simp only [he, Finset.sum_sub_distrib, Finset.sum_ite_eq, mem_univ, if_true, Finset.sum_const, Finset.card_univ,
+      nsmul_eq_mul, mul_one]
+  simp only [hrow, Finset.sum_const, Finset.card_univ, nsmul_eq_mul]
+  ring
+
+end gencount
+
 -- NOT PROVED HERE: nothing was left out; every quantified fact of `spec_axioms()` and every `lemma_*` instance of
 -- engine/pyvc/core.py has a theorem above (see README.md for the table).  Three SMT axioms are not theorems but
 -- definitions / typing facts of this formalisation:
@@ -1207,5 +1399,7 @@ end aggcompose
 -- (second batch: singletons, Qrawg / QrawB gain, relabel_g, umul linearity, walks incl. split and pigeonhole, dot support:
 --  all proved.)
 -- (third batch: aggregation composes — `agg_comp`, `tot_agg`, `Q_agg_comp`, `agg_compose_smt` for `lemma_agg_compose`: all proved.)
+-- (fourth batch: counting — `card_offdiag_enum(_int)`, `card_upper_enum(_nat)` for `lemma_flat_count`, `tot_indicator_of_injective_cells`
+--  for `lemma_image_count`, `tot_add_transpose` for `lemma_tsum_plus_transpose`: all proved; `Fintype.card ι` is the SMT `n`, hence `n ≥ 0`.)
 
 end VerifLemmas
